@@ -102,6 +102,10 @@ class FakeStdin:
         # seconds the caller is kept waiting AFTER the bytes were handed to the pipe (float("inf") = forever).
         # The bytes are recorded at send() time; if the caller is cancelled while waiting they stay recorded.
         self.slow: Optional[Callable[[int, bytes], Optional[float]]] = None
+        # optional transient pipe trouble: fail(call_index, data) -> None (no trouble) or the exception this send()
+        # raises; nothing of the data is recorded for a failed send
+        self.fail: Optional[Callable[[int, bytes], Optional[BaseException]]] = None
+        self.failed_calls: List[int] = []
 
     async def send(self, data: bytes):
         self.send_calls += 1
@@ -111,6 +115,12 @@ class FakeStdin:
             raise anyio.BrokenResourceError
         if self.mode == "block":
             await asyncio.get_running_loop().create_future()  # never completes
+        if self.fail is not None:
+            exc = self.fail(self.send_calls - 1, bytes(data))
+            if exc is not None:
+                self.failed_calls.append(self.send_calls - 1)
+                await asyncio.sleep(0)
+                raise exc
         if self.slow is not None:
             delay = self.slow(self.send_calls - 1, bytes(data))
             if delay is not None:
